@@ -3,7 +3,7 @@
 # files (outside /repo and /verif, removed afterwards) and run `rsa matrix` (every registered
 # check, one process per seed) against that copy; record which checks fire in seeded/RESULTS.md.
 cd /verif; . ./env.sh
-work=/tmp/sweep.$$; mkdir -p $work
+work=/tmp/sweep.$$; mkdir -p $work; cp /verif/bin/rsa $work/rsa
 ids=""
 for d in seeded/${ONLY:-C*}/; do
   id=$(basename $d)
@@ -12,7 +12,7 @@ for d in seeded/${ONLY:-C*}/; do
   (cd $work/$id && git apply "/verif/$d/patch.diff") || { echo "$id APPLY-FAILED" >> $work/failed; continue; }
   ids="$ids $id"
 done
-echo $ids | tr ' ' '\n' | GOMAXPROCS=4 xargs -P ${PAR:-8} -I{} sh -c "/verif/bin/rsa matrix --repo $work/{} > $work/{}.out 2>$work/{}.err"
+echo $ids | tr ' ' '\n' | GOMAXPROCS=4 xargs -P ${PAR:-8} -I{} sh -c "$work/rsa matrix --repo $work/{} > $work/{}.out 2>$work/{}.err"
 out=seeded/RESULTS.md
 echo "| seed | property | rules reported by the property's own check | other checks that report it (rules) |" > $out
 echo "|---|---|---|---|" >> $out
